@@ -228,8 +228,9 @@ class C15(Check):
             "(reserved bits on data/control frames, RSV1 without extension / on a continuation, fragmented or 126-byte "
             "control frames, orphan continuations, a data frame inside a fragmented message, invalid UTF-8 whole / "
             "truncated / across fragments / surrogate, opcodes 3-7 and 0xB-0xF, messages over max_message_size as one "
-            "frame / summed fragments / after inflation / declared 2^40, corrupt deflate data) inserted after 0..2 valid "
-            "messages and followed by 0..2 valid messages, delivered in one segment or frame by frame; plus messages "
+            "frame / summed fragments / after inflation / declared 2^40, corrupt deflate data) inserted after 0..2 (thorough 0..3) valid "
+            "messages and followed by 0..2 valid messages, delivered in one segment or frame by frame (thorough: also with the "
+            "violating frame split at every byte offset 1..14 into two segments); plus messages "
             "exactly at the limit (must be delivered); state = one session; non-trivial = all violating sessions")
     claim = ("After the violating frame the connection is aborted without waiting for a timer, the application has "
              "received exactly the messages completed before it and nothing from it or after it, the close notification "
@@ -251,15 +252,15 @@ class C15(Check):
             names = ["rsv1-without-extension", "rsv2", "orphan-continuation"]
         k = 0
         for vname in names:
-            for nbefore in (0, 1, 2):
+            for nbefore in (0, 1, 2, 3) if tier == "thorough" else (0, 1, 2):
                 for nafter in (0, 1, 2) if tier == "thorough" else (0, 2):
                     for sep in (False, True):
                         k += 1
                         if k % nsl != sl:
                             continue
                         self.one(role, deflate, vname, nbefore, nafter, sep, False, st)
-                        if tier == "thorough" and sep and nbefore == 1 and nafter == 2:
-                            for cut in (1, 2, 3, 5, 6, 7, 9, 11):
+                        if tier == "thorough" and sep and nbefore in (0, 1) and nafter in (0, 2):
+                            for cut in range(1, 15):
                                 self.one(role, deflate, vname, nbefore, nafter, sep, False, st, cut)
         for bname in sorted(boundaries(deflate)):
             for nbefore in (0, 1):
